@@ -7,6 +7,7 @@ package dpos
 import (
 	"fmt"
 	"sort"
+	"sync"
 
 	"github.com/aergoio/aergo/v2/chain"
 	"github.com/aergoio/aergo/v2/consensus"
@@ -39,8 +40,24 @@ func VerifNew(cdb consensus.ChainDB, sdb *state.ChainStateDB, bpid string) (*DPo
 	d.Status.load()
 	d.Status.libState.bpid = bpid
 	d.Status.Unlock()
+	verifLoaders.Store(d, bsLoader)
 	return d, nil
 }
+
+// verifLoaders remembers the boot loader (chain DB handle + genesis) of every
+// simulated node: loadPlibStatus reads blocks through the package global bsLoader
+// when the status is rolled back, so the harness re-binds it before driving a node.
+var verifLoaders sync.Map
+
+// VerifFocus makes this node's boot loader the package-global one.
+func (d *DPoS) VerifFocus() {
+	if l, ok := verifLoaders.Load(d); ok {
+		bsLoader = l.(*bootLoader)
+	}
+}
+
+// VerifForget drops the remembered boot loader of a stopped node.
+func (d *DPoS) VerifForget() { verifLoaders.Delete(d) }
 
 // VerifLIB returns the current LIB (hash, no).
 func (d *DPoS) VerifLIB() (string, types.BlockNo) {
